@@ -1,6 +1,6 @@
 # Per-property claims; exec'd by gen_manifest.py (claim(id, technique, text, note, design_ref)).
 PENDING = "check not built yet in this framework (DESIGN.md §8 build order); no verdict is claimed until its rule set runs clean both ways"
-for _p in ["C01","C02","C03","C04","C08","C11","C14","C16","C18","C19","C20"]:
+for _p in ["C01","C02","C03","C04","C08","C11","C14","C18","C19","C20"]:
     NOT_APPLICABLE[_p] = PENDING
 
 claim("C10",
@@ -56,3 +56,9 @@ claim("C06",
   "For every exported constructor that takes a signing private key and returns a structure with a signature: the stored signature must originate from a cryptographic signing primitive (NewLeaseSet2's placeholder is reported as a known finding); every argument stored in the structure is also an origin of the signed message (content, not just its length); the key operand is the constructor's key parameter; and the function producing the signed bytes is the very function producing the verified bytes in C05 (RouterInfo, EncryptedLeaseSet) or a twin with the same prefix constants (LeaseSet, OfflineSignature; their field order is compared under C01). This decides, for all admissible arguments, the structural half of 'what the library signs it also verifies'; that verification then succeeds for every content rests on C01/C11 and the signature scheme.",
   "Trusted: go-i2p/crypto signers, crypto/ed25519; go/ssa. Constructors are discovered by signature (New*/Create* with a private-key parameter and a result carrying a signature field). Known finding: NewLeaseSet2 never signs.",
   "DESIGN.md §5 C06")
+
+claim("C16",
+  "call-graph closure scan for nondeterminism sources (with canary) + provenance slicing at the KDF / NewKeysAndCert / BlindPublicKey call sites + assumption-based evaluation around the AEAD open + affine comparison of encrypt/decrypt offsets",
+  "Shows for all destinations, secrets and instants that blinding is a deterministic function of (destination, secret, UTC calendar day): nothing reachable from CreateBlindedDestination in the library or go-i2p/crypto reads a clock, a random source, iterates a map or starts a goroutine, and the day string is date.UTC().Format(2006-01-02); the blinded destination keeps the same destination's key certificate, encryption key and padding; VerifyBlindedSignature is exactly BlindPublicKey(original, alpha) == blinded key. For the encrypted inner leaseset: if the AEAD open fails no value is returned, the value returned is parsed from the authenticated plaintext only, and the byte ranges read on decryption are, as affine forms in the input length, the mirror image of what encryption appends (32|12|ct|16). decrypt(encrypt(x)) = x and rejection of every modified ciphertext byte are properties of X25519/HKDF/ChaCha20-Poly1305 (trusted).",
+  "Trusted: go-i2p/crypto kdf/ed25519/chacha20poly1305, go.step.sm x25519, VTA call graph (interface calls resolved by VTA). Logging is excluded from the nondeterminism scan.",
+  "DESIGN.md §5 C16")
